@@ -46,6 +46,13 @@ func (env *c18Env) check(s *specs.Spec) (msg string, generatorBug bool) {
 				return
 			}
 		}
+		// every other case: the schema has seen this very object before, in a state it refuses (corrected in place since)
+		if env.seq%2 == 0 {
+			saved := s.Devices
+			s.Devices = nil // written as "devices": null, which the schema (type array) refuses
+			_ = schema.BuiltinSchema().Validate(s)
+			s.Devices = saved
+		}
 		// the in-memory object passes the builtin schema
 		if err := schema.BuiltinSchema().Validate(s); err != nil {
 			msg = fmt.Sprintf("library-valid Spec fails the builtin schema as an in-memory object: %v", err)
